@@ -45,12 +45,15 @@ def random_case(rng):
     dly = f"{rng.choice([0, 20, 50])},{rng.choice([200, 1000, 2000])}"
     cs = f"{rng.choice([0, 30, 100])},{rng.choice([500, 1500, 3000])}"
     sd = rng.choice([0, rng.randint(0, 3000), rng.randint(0, 15000)])
-    q = -1 if rng.random() < 0.8 else rng.randint(0, max(1, sd))
+    q = -1 if rng.random() < 0.7 else rng.randint(0, max(1, sd))
     panic = rng.choice([0, 0, 0, 10, 30])
     n_aw = rng.choice([1, 1, 2])
     n_gsd = rng.choice([1, 1, 2])
     aw = rng.randint(0, sd + 2000)
-    return f"{nperm} {linger} {progs} {task_max} {rng.getrandbits(48)} {dly} {cs} {sd} {q} {panic} {n_aw} {n_gsd} {aw}"
+    q_mode = rng.choice([0, 1, 1, 2])
+    if q >= 0 and q_mode and rng.random() < 0.5:
+        q = rng.randint(max(0, sd - 300), sd + 600)      # around / after the group's shutdown
+    return f"{nperm} {linger} {progs} {task_max} {rng.getrandbits(48)} {dly} {cs} {sd} {q} {panic} {n_aw} {n_gsd} {aw} {q_mode}"
 
 
 def race_case(rng):
@@ -62,7 +65,7 @@ def race_case(rng):
     cs = f"{rng.choice([60, 100])},{rng.choice([1500, 3000])}"
     dly = f"{rng.choice([0, 20])},{rng.choice([200, 1000])}"
     sd = rng.randint(8000, 25000)
-    return f"{nperm} 1000 {progs} {rng.choice([0, 100, 500])} {rng.getrandbits(48)} {dly} {cs} {sd} -1 0 1 1 {rng.randint(0, sd)}"
+    return f"{nperm} 1000 {progs} {rng.choice([0, 100, 500])} {rng.getrandbits(48)} {dly} {cs} {sd} -1 0 1 1 {rng.randint(0, sd)} 0"
 
 
 def respawn_case(rng):
@@ -71,7 +74,7 @@ def respawn_case(rng):
     nperm = rng.choice([1, 2])
     progs = ",".join(prog(rng, 3, "sb") for _ in range(rng.randint(1, 2)))
     sd = rng.randint(1_050_000, 1_300_000)
-    return f"{nperm} {rng.choice([0, 1000])} {progs} 200 {rng.getrandbits(48)} 20,500 0,0 {sd} {rng.randint(0, 2000)} {rng.choice([0, 30])} 1 1 {rng.randint(0, sd)}"
+    return f"{nperm} {rng.choice([0, 1000])} {progs} 200 {rng.getrandbits(48)} 20,500 0,0 {sd} {rng.randint(0, 2000)} {rng.choice([0, 30])} 1 1 {rng.randint(0, sd)} {rng.choice([0, 1])}"
 
 
 def gen(rng, tier):
@@ -143,8 +146,10 @@ def features(trace):
         elif kind == "w_exit_to":
             fs.add("linger-timeout-exit")
         elif kind in ("sub_wait", "sub_reject", "sos_reject", "spawn_reject", "w_exit_dl", "r_wait",
-                      "respawn_end", "psd1", "sos_push", "sub_push"):
+                      "respawn_end", "sos_push", "sub_push"):
             fs.add(kind)
+        elif kind == "psd1":
+            fs.add("psd1" if c == "1" else "psd1:pool-already-removed")
         elif kind == "w_exit_sd" and int(b) == 0 and note == "1":
             fs.add("woken-by-shutdown")
     return fs
@@ -256,7 +261,7 @@ def stage(tier, seed, replay):
 CHECK = {
     "property": "C29",
     "props": "Props/C29.v",
-    "theorems": ["c29_inv_step", "c29_inv_reachable", "c29_exactly_once", "c29_await", "c29_reject", "c29_closed",
+    "theorems": ["c29_inv_step", "c29_inv_reachable", "c29_exactly_once", "c29_await", "c29_reject", "c29_closed", "c29_group_shutdown_closes_pool",
                  "c29_no_underflow", "c29_progress", "c29_measure", "c29_measure_wf", "c29_trace_sound",
                  "c29_trace_safe", "c29_await_refuted_prefix"],
     "allowed_axioms": [],
@@ -264,7 +269,7 @@ CHECK = {
     "rule": ("randomized scenarios on the real ThreadGroup/ThreadPool with hooks armed: 0-2 permanent workers, linger "
              "0/1 ms/50 ms, 1-4 submitters with 1-5 submit/submit_or_spawn calls each, task durations 0-3 ms, 0-30% "
              "panicking tasks, group shutdown at a random time concurrent with the submitters (1-2 callers), optional "
-             "earlier ThreadPool::shut_down, 1-2 await_shutdown callers, random sleeps at 12 scheduling points incl. "
+             "ThreadPool::shut_down calls (before, racing with or after the group's, also twice), 1-2 await_shutdown callers, random sleeps at 12 scheduling points incl. "
              "inside the submit critical sections; every 4th case is directed at the linger-timeout race; a few > 1 s "
              "cases exercise respawn. Each recorded trace is replayed on the extracted LTS. non-trivial = the trace "
              "contains a linger timeout, a timed-out worker taking a task, a blocked submit, a rejection, a respawn or "
